@@ -318,6 +318,13 @@ func c14() []*Ob {
 					}
 				}
 			}},
+		{Prop: "C14", ID: "C14.13", Engine: "LOOPS(every element)", Floor: 1,
+			Desc: "pruning looks at every fraction: the loop of List.FilterInRange asks IsIntersecting on every iteration and has no early exit — the list is in creation order, not in order of its time borders (a late batch, a replayed backlog or a skewed client clock puts old documents into a new fraction), so 'everything behind this one is older' cuts off fractions that hold documents of the range",
+			Check: func(c *Ctx) {
+				if fn := c.Fn("(fracmanager.List).FilterInRange"); fn != nil {
+					everyElementAsked(c, fn, Callee("(frac.Fraction).IsIntersecting"), "IsIntersecting", "fractions behind the cut are not searched and not fetched from although they may hold documents of the range")
+				}
+			}},
 		{Prop: "C14", ID: "C14.3", Engine: "SIBLING", Floor: 3,
 			Desc: "one predicate for search and fetch: List.FilterInRange keeps a fraction iff Fraction.IsIntersecting; Contains(id) is IsIntersecting(id, id) in Active and Sealed; proxyFrac delegates both to the current fraction",
 			Check: func(c *Ctx) {
